@@ -54,7 +54,7 @@ fn two_frames(base: u32) -> (FrameQueue, PendingPacketRc, PendingPacketRc, bool,
     (fq, p0, p1, n0, n1, t1)
 }
 
-fn gate(base: u32, ack_base_delta: u32, bitfield: u32) {
+fn gate(base: u32, ack_base_delta: u32, bitfield: u32, all_known: bool, claims0: bool, claims1: bool) -> (bool, bool) {
     let (mut fq, p0, p1, n0, n1, _t1) = two_frames(base);
     let before = snapshot(&fq, &p0, &p1);
     let ack_base = base.wrapping_add(ack_base_delta);
@@ -62,23 +62,8 @@ fn gate(base: u32, ack_base_delta: u32, bitfield: u32) {
     let rtt = if kani::any() { Some(kani::any::<u64>() & 0xFFFF) } else { None };
     fq.acknowledge_group(frame::AckGroup { base_id: ack_base, bitfield, nonce }, rtt);
     let after = snapshot(&fq, &p0, &p1);
-    // reference: which sent frames does the group cover / claim
-    let mut top = 0;
-    let mut i = 0;
-    while i < 32 { if bitfield & (1 << i) != 0 { top = i + 1; } i += 1; }
-    let mut all_known = top > 0;
-    let mut parity = false;
-    let mut claims0 = false;
-    let mut claims1 = false;
-    let mut i = 0;
-    while i < top {
-        let off = ack_base_delta.wrapping_add(i);   // offset from the log base
-        if off >= 2 { all_known = false; }
-        else if bitfield & (1 << i) != 0 {
-            if off == 0 { parity ^= n0; claims0 = true; } else { parity ^= n1; claims1 = true; }
-        }
-        i += 1;
-    }
+    // reference (per shape, passed in): are all covered ids in the log, and which of the two frames are claimed
+    let parity = (claims0 && n0) ^ (claims1 && n1);
     let genuine = all_known && parity == nonce;
     if !genuine {
         assert!(same(&before, &after), "[C15] an acknowledgement for unknown frames or with the wrong nonce parity has no effect at all");
@@ -87,49 +72,57 @@ fn gate(base: u32, ack_base_delta: u32, bitfield: u32) {
         assert!(after.frag0 == claims0 && after.frag1 == claims1, "[C15,C12] fragments carried by acknowledged frames are marked, others not");
         assert!(after.has_ack_data, "[C15] a genuine fresh acknowledgement feeds the rate controller");
     }
-    kani::cover!(genuine, "genuine acknowledgement");
-    kani::cover!(all_known && !genuine, "wrong nonce parity");
     std::mem::forget(fq); std::mem::forget(p0); std::mem::forget(p1);
+    (genuine, all_known)
 }
 
 macro_rules! gate_shape {
     ($name:ident, $base:expr, $delta:expr, $bits:expr) => {
         #[kani::proof]
-        #[kani::unwind(34)]
-        fn $name() { gate($base, $delta, $bits); }
+        #[kani::unwind(6)]
+        fn $name() { let (genuine, _) = gate($base, $delta, $bits, false, false, false); kani::cover!(!genuine, "rejected"); }
+    };
+    ($name:ident, $base:expr, $delta:expr, $bits:expr, inside, $c0:expr, $c1:expr) => {
+        #[kani::proof]
+        #[kani::unwind(6)]
+        fn $name() {
+            let (genuine, all_known) = gate($base, $delta, $bits, true, $c0, $c1);
+            kani::cover!(genuine, "genuine acknowledgement");
+            kani::cover!(all_known && !genuine, "wrong nonce parity");
+        }
     };
 }
 
-//@h props=C15,C03,C12 tier=quick timeout=1200 role=ack-gate
+//@h props=C15,C03,C12 tier=quick timeout=1200 role=ack-gate unwindset=FrameQueue17acknowledge_group.0:34
 //@fn FrameQueue::{push, acknowledge_group}, FrameLog::{get_frame, get_frame_mut}, FeedbackGen::{notify_ack, put_ack_data}, ReorderBuffer::put, PendingPacket::acknowledge_fragment
 //@bound log of 2 frames at base 2^32-1 (second id wraps); ack group shape: base = log base, bitfield 0b11; group nonce, frame nonces, sizes, send times, RTT any
-gate_shape!(o15_1_gate_both_frames, 0xFFFF_FFFF, 0, 0b11);
-//@h props=C15,C03,C12 tier=quick timeout=1200 role=ack-gate
+gate_shape!(o15_1_gate_both_frames, 0xFFFF_FFFF, 0, 0b11, inside, true, true);
+//@h props=C15,C03,C12 tier=quick timeout=1200 role=ack-gate unwindset=FrameQueue17acknowledge_group.0:34
 //@fn FrameQueue::{push, acknowledge_group}, FeedbackGen::{notify_ack, put_ack_data}, ReorderBuffer::put
 //@bound log of 2 frames at base 7; ack group shape: base = log base + 1, bitfield 0b1 (second frame only); nonces etc. any
-gate_shape!(o15_1_gate_second_frame_only, 7, 1, 0b1);
-//@h props=C15,C03 tier=quick timeout=1200 role=ack-gate
+gate_shape!(o15_1_gate_second_frame_only, 7, 1, 0b1, inside, false, true);
+//@h props=C15,C03 tier=quick timeout=1200 role=ack-gate unwindset=FrameQueue17acknowledge_group.0:34
 //@fn FrameQueue::{push, acknowledge_group}
 //@bound log of 2 frames at base 7; ack group shape: base = log base, bitfield 0b101 (covers an id that was never sent); nonces etc. any
 gate_shape!(o15_1_gate_covers_unsent_frame, 7, 0, 0b101);
-//@h props=C15,C03 tier=quick timeout=1200 role=ack-gate
+//@h props=C15,C03 tier=quick timeout=1200 role=ack-gate unwindset=FrameQueue17acknowledge_group.0:34
 //@fn FrameQueue::{push, acknowledge_group}
 //@bound log of 2 frames at base 0; ack group shape: base = log base - 1 (already forgotten / never sent), bitfield 0b11; nonces etc. any
 gate_shape!(o15_1_gate_base_before_log, 0, 0xFFFF_FFFF, 0b11);
-//@h props=C15,C03 tier=thorough timeout=1200 role=ack-gate
+//@h props=C15,C03 tier=thorough timeout=1200 role=ack-gate unwindset=FrameQueue17acknowledge_group.0:34
 //@fn FrameQueue::{push, acknowledge_group}
 //@bound log of 2 frames at base 7; ack group shape: base = log base, bitfield 0b10 (first frame covered but not claimed); nonces etc. any
-gate_shape!(o15_1_gate_gap_first_frame, 7, 0, 0b10);
-//@h props=C15,C03 tier=thorough timeout=1200 role=ack-gate
+gate_shape!(o15_1_gate_gap_first_frame, 7, 0, 0b10, inside, false, true);
+//@h props=C15,C03 tier=thorough timeout=1200 role=ack-gate unwindset=FrameQueue17acknowledge_group.0:34
 //@fn FrameQueue::{push, acknowledge_group}
 //@bound log of 2 frames at base 7; ack group shape: bitfield 0 (dud) and bitfield with only bit 31 set; nonces etc. any
 gate_shape!(o15_1_gate_top_bit, 7, 0, 0x8000_0000);
 
-//@h props=C15,C14 tier=quick timeout=1500 role=ack-replay
+//@h props=C15,C14 tier=quick timeout=1500 role=ack-replay unwindset=FrameQueue17acknowledge_group.0:34
 //@fn FrameQueue::{push, acknowledge_group, get_feedback}, FeedbackGen::{put_ack_data, get_feedback}
 //@bound log of 2 frames at base 2^32-1; a genuine group acknowledging both frames is processed, feedback is collected at any time, then the SAME group arrives again (duplicate or delayed replay) and feedback is collected again at any later time
 #[kani::proof]
-#[kani::unwind(34)]
+#[kani::unwind(6)]
 fn o15_2_replayed_ack_has_no_effect() {
     let (mut fq, p0, p1, n0, n1, t1) = two_frames(0xFFFF_FFFF);
     let g = frame::AckGroup { base_id: 0xFFFF_FFFF, bitfield: 0b11, nonce: n0 ^ n1 };
